@@ -7,6 +7,10 @@ import CLModel.Props.C01
 import CLModel.Checks.Base
 import CLModel.Compare.Merge
 import CLModel.Proofs.RxSearch
+import CLModel.Proofs.C05Pipe
+import CLModel.Proofs.C05Report
+import CLModel.Proofs.C05Lint
+import CLModel.Proofs.C05Props
 namespace C05
 open P Rx
 
@@ -113,5 +117,241 @@ theorem merge_type_error_iff (contents : List Nat) (skips : List Merge.Skip) (ms
       · exact Or.inr (Or.inr ⟨s, hs, hn⟩)
 
 example : ∃ r ∈ Checks.baseCheck #[97, 0xFFFD, 98], r.pos = 1 := by decide
+
+/-! ## The composed pipeline (CLModel/Compare/Pipeline.lean)
+
+`Pipe.compareTexts fmt refText l10nText mergeOn : Except PyErr Report` is `ContentComparer.compare` (one unfiltered
+`Observer`, file `a.<ext>`, locale "de", fresh process) followed by `observers.toJSON()`; `Pipe.compareFiles` is the same
+for any `File` and any list of fresh observers with filters; `Pipe.lintText` is `L10nLinter.lint_file`.  They compose
+the component models: `P.walk` (C01), `Hist.assign` (C18), `P.entView` (C02), `AR.addRemove`/`keyedIndex` (C20), the
+loop of C03 extended by the checker call, `Checks.baseCheck` (C05) / `PropCk.check` (C06), `Pos.resolveCheckPos`
+(C17), `ObsM`/`TreeM` (C10), `Merge.merge` (C04), `Lint.lintFile` (C19).
+
+Covered: ini, inc, po (base `Checker`) and properties (`PropertiesChecker`).  Not covered: dtd (expat is external),
+ftl, android (no regex parser): for those the claim is decided by the execution oracle.
+
+FULL STATEMENT (C05): `∀ fmt refText l10nText mergeOn, ∃ r, compareTexts fmt refText l10nText mergeOn = .ok r`.
+It is FALSE for the code as it is: when the key of a localized entity equals the key `_junk_<n>_<a>-<b>` of a `Junk`
+of the reference, `refent.equals(l10nent)` raises AttributeError (`Junk` has no `equals`) — `junk_key_clash_raises`
+below is the model's witness, the harness shows it on the real code (finding F8-junk-key-clash-raise).  The theorems
+on the comparison therefore carry the hypothesis `Pipe.NoJunkClashT` and are named `_partial`; besides that hypothesis
+they are restricted to the covered formats.  `Pipe.noClashTB` is a decidable sufficient condition. -/
+
+/-- the formats whose whole pipeline is modelled -/
+def CoveredFmt (f : P.Fmt) : Prop := f = .ini ∨ f = .inc ∨ f = .po ∨ f = .properties
+
+theorem covered_checker {f : P.Fmt} (h : CoveredFmt f) : ∃ ck, Pipe.checkerOf f = some ck := by
+  rcases h with rfl | rfl | rfl | rfl <;> exact ⟨_, rfl⟩
+
+theorem stdFile_modelled (fmt : P.Fmt) : ObsM.Modelled (Pipe.stdFile fmt) := by
+  intro m hmod; simp [Pipe.stdFile] at hmod
+
+/-- **compare never raises** (all texts, no bound; any file the observers can address, any list of fresh observers
+    with arbitrary filters and quiet level; with or without merge staging).  From: `parse_never_stuck` (C01), the
+    value lemmas of C02 (`props_unescape_is_spec`, `po_unescape_is_spec`), the lookup lemmas of C03/C20, observer
+    totality `list_run_ok` (C10), `linecol` totality (C17), the C06 verdict theorems (properties checker),
+    `merge_no_type_error` (C05: regex-format entries always have spans). -/
+theorem compare_never_raises_partial (fmt : P.Fmt) (hf : CoveredFmt fmt) (file : ObsM.File) (hm : ObsM.Modelled file)
+    (q : Nat) (flts : List (Option ObsM.Filter)) (refText l10nText : Array Nat) (mergeOn : Bool)
+    (hnc : Pipe.NoJunkClashT fmt refText l10nText) :
+    ∃ r, Pipe.compareFiles fmt file (ObsM.ObsList.init q (flts.map (ObsM.Obs.init q))) refText l10nText mergeOn = .ok r := by
+  obtain ⟨ck, hck⟩ := covered_checker hf
+  obtain ⟨_, _, _, _, obs', outcome, _, _, _, _, _, _, h, _⟩ :=
+    Pipe.compareFiles_spec fmt ck hck file hm (Pipe.fresh_init q flts) refText l10nText mergeOn
+      (parse_never_stuck fmt) merge_no_type_error
+      (fun ref l10n hwr hwl => Pipe.checkerOK_covered fmt ck hck _ rfl ref l10n hwr hwl) hnc
+  exact ⟨_, h⟩
+
+/-- the same for the harness configuration `compareTexts` -/
+theorem compareTexts_never_raises_partial (fmt : P.Fmt) (hf : CoveredFmt fmt) (refText l10nText : Array Nat) (mergeOn : Bool)
+    (hnc : Pipe.NoJunkClashT fmt refText l10nText) :
+    ∃ r, Pipe.compareTexts fmt refText l10nText mergeOn = .ok r :=
+  compare_never_raises_partial fmt hf _ (stdFile_modelled fmt) 0 [none] refText l10nText mergeOn hnc
+
+/-- a well-formed item of `toJSON()["details"]`: an error or a warning whose value is a `str` of one of the four
+    message shapes (all positions are `%d`-formatted integers), or a missing/obsolete entity whose value is the key -/
+def DetailWF (d : ObsM.Detail) : Prop :=
+  ((d.1 = .error ∨ d.1 = .warning) ∧ ∃ t, d.2 = .data (.str t) ∧ Pipe.MsgShape t) ∨
+  ((d.1 = .missingEntity ∨ d.1 = .obsoleteEntity) ∧ ∃ k, d.2 = .data (Pipe.keyData k))
+
+/-- **the report is well formed**: whatever the filters and the quiet level, every detail item is an error or a
+    warning with a text message — `"<key> occurs <n> times"`, `"Parser error in en-US"`, `Junk.error_message()` with
+    four integers, or `"<msg> at line <int>, column <int> for <key>"` — or a missing/obsolete key.
+    (That the summary values are natural numbers holds by the type of `Report.summary`.) -/
+theorem report_wellformed_partial (fmt : P.Fmt) (hf : CoveredFmt fmt) (file : ObsM.File) (hm : ObsM.Modelled file)
+    (q : Nat) (flts : List (Option ObsM.Filter)) (refText l10nText : Array Nat) (mergeOn : Bool)
+    (hnc : Pipe.NoJunkClashT fmt refText l10nText) (r : Pipe.Report)
+    (hr : Pipe.compareFiles fmt file (ObsM.ObsList.init q (flts.map (ObsM.Obs.init q))) refText l10nText mergeOn = .ok r) :
+    ∀ leaf ∈ r.details, ∀ d ∈ leaf.2, DetailWF d := by
+  obtain ⟨ck, hck⟩ := covered_checker hf
+  obtain ⟨_, _, _, _, obs', outcome, evs, stats, _, _, _, _, h, hreach, hwf, _⟩ :=
+    Pipe.compareFiles_spec fmt ck hck file hm (Pipe.fresh_init q flts) refText l10nText mergeOn
+      (parse_never_stuck fmt) merge_no_type_error
+      (fun ref l10n hwr hwl => Pipe.checkerOK_covered fmt ck hck _ rfl ref l10n hwr hwl) hnc
+  rw [h] at hr
+  cases hr
+  intro leaf hleaf d hd
+  obtain ⟨cat, f, data, rv, hev, rfl⟩ := Pipe.report_details_from_history q flts file hm _ obs' hreach outcome leaf hleaf d hd
+  simp only [List.mem_append, List.mem_singleton] at hev
+  rcases hev with hev | hev
+  · have := hwf _ hev
+    simp only [Pipe.EvWF] at this
+    rcases this with ⟨hc, t, rfl, hs⟩ | ⟨hc, k, rfl⟩
+    · have hnf : cat.isFile = false := by rcases hc with rfl | rfl <;> rfl
+      exact Or.inl ⟨by simpa [ObsM.detailOf, hnf] using hc, t, by simp [ObsM.detailOf, hnf], hs⟩
+    · have hnf : cat.isFile = false := by rcases hc with rfl | rfl <;> rfl
+      exact Or.inr ⟨by simpa [ObsM.detailOf, hnf] using hc, k, by simp [ObsM.detailOf, hnf]⟩
+  · cases hev
+
+/-- **U+FFFD is always warned, end to end**: for every key shared by the two files whose LAST localized entry's text
+    (`.all`) contains U+FFFD, `toJSON()["details"]` of the finished comparison has the warning
+    `"� in: <key> at line <l>, column <c> for <key>"` — the "encodings" result of the base check, which
+    `PropertiesChecker.check` yields first.  Uses `ufffd_warned`. -/
+theorem ufffd_warned_end_to_end_partial (fmt : P.Fmt) (hf : CoveredFmt fmt) (refText l10nText : Array Nat) (mergeOn : Bool)
+    (hnc : Pipe.NoJunkClashT fmt refText l10nText) :
+    ∃ r ref n1 l10n n2, Pipe.compareTexts fmt refText l10nText mergeOn = .ok r ∧
+      Pipe.parseFile fmt refText 0 = .ok (ref, n1) ∧ Pipe.parseFile fmt l10nText n1 = .ok (l10n, n2) ∧
+      ∀ k refent l10nent, Pipe.lookup ref k = .ok refent → Pipe.lookup l10n k = .ok l10nent → 0xFFFD ∈ l10nent.all →
+        ∃ leaf ∈ r.details, ∃ line col : Int,
+          (ObsM.Cat.warning, ObsM.DVal.data (.str (Pipe.checkMsg (Pipe.encPrefix ++ Pipe.keyText l10nent.key) line col refent.key)))
+            ∈ leaf.2 := by
+  have hm := stdFile_modelled fmt
+  obtain ⟨ck, hck⟩ := covered_checker hf
+  obtain ⟨ref, n1, l10n, n2, obs', outcome, evs, stats, hp1, hp2, hw1, hw2, h, hreach, _, hall⟩ :=
+    Pipe.compareFiles_spec fmt ck hck (Pipe.stdFile fmt) hm (Pipe.fresh_init 0 [none]) refText l10nText mergeOn
+      (parse_never_stuck fmt) merge_no_type_error
+      (fun ref l10n hwr hwl => Pipe.checkerOK_covered fmt ck hck _ rfl ref l10n hwr hwl) hnc
+  refine ⟨_, ref, n1, l10n, n2, h, hp1, hp2, ?_⟩
+  intro k refent l10nent hlr hll hff
+  obtain ⟨hrm, _, hkr⟩ := Pipe.lookup_ok hlr
+  obtain ⟨hlm, _, hkl⟩ := Pipe.lookup_ok hll
+  -- the diff has the item (equal, k)
+  have hkmem : k ∈ (AR.addRemove (ref.map (·.key)) (l10n.map (·.key))).map (·.2) :=
+    (AR.addRemove_keys_mem_gen _ _ k).2 (Or.inl hkr)
+  obtain ⟨p, hp, hpk⟩ := List.mem_map.1 hkmem
+  have hlab := AR.addRemove_labels_gen _ _ p hp
+  have hc1 : (ref.map (·.key)).contains k = true := by simpa using hkr
+  have hc2 : (l10n.map (·.key)).contains k = true := by simpa using hkl
+  rw [hpk] at hlab
+  simp only [AR.lab, hc1, hc2, if_true] at hlab
+  obtain ⟨evp, hse, hsub⟩ := hall p hp
+  obtain ⟨refent', l10nent', rs, hlr', hll', hrs, hevp⟩ := hse hlab
+  rw [hpk] at hlr' hll'
+  rw [hlr] at hlr'; cases hlr'
+  rw [hll] at hll'; cases hll'
+  -- the results of the checker contain those of the base check
+  obtain ⟨hrj, hlj⟩ := hnc ref n1 l10n n2 ck hp1 hp2 hck k hkr hkl
+  have hbase := Pipe.base_in_results fmt ck hck _ refent l10nent (hw1 _ hrm) (hw2 _ hlm) (hrj _ hlr)
+    (fun hp => hlj hp _ hll) rs hrs
+  -- the base check yields an "encodings" warning
+  obtain ⟨br, hbr, hsev, _⟩ := ufffd_warned l10nent.all.toArray (by simpa using hff)
+  obtain ⟨lc, hlc⟩ := Pipe.position_total l10nText l10nent.entry (br.pos : Int)
+  have hev : ObsM.Ev.notify .warning (Pipe.stdFile fmt)
+      (.str (Pipe.checkMsg (Pipe.encPrefix ++ Pipe.keyText l10nent.key) lc.1 lc.2 refent.key)) ∈ evp := by
+    rw [hevp]
+    simp only [List.mem_filterMap]
+    refine ⟨{ sev := br.severity, pos := .entityPos (br.pos : Int), msg := Pipe.encPrefix ++ Pipe.keyText l10nent.key, cat := Pipe.encCat }, ?_, ?_⟩
+    · apply hbase
+      simp only [Pipe.runBase, List.mem_map]
+      exact ⟨br, hbr, rfl⟩
+    · simp only [Pipe.checkEv, Pipe.envOf, Pos.resolveCheckPos, hlc, Option.map_some, hsev, Pipe.sevCat]
+  obtain ⟨leaf, hleaf, hd⟩ := Pipe.report_has_detail (Pipe.stdFile fmt) hm _ obs' hreach outcome .warning _
+    (List.mem_append_left _ (hsub _ hev)) (Or.inr (Or.inl rfl))
+  exact ⟨leaf, hleaf, lc.1, lc.2, hd⟩
+
+/-- **lint never raises** (all texts of the covered formats, with or without a reference file): no hypothesis on junk
+    keys is needed, the linter compares an Entity with whatever the reference has under its key (`Entity.equals` only
+    reads `key` and `val`, which a `Junk` has too). -/
+theorem lint_never_raises (fmt : P.Fmt) (hf : CoveredFmt fmt) (refText : Option (Array Nat)) (curText : Array Nat) :
+    ∃ rs, Pipe.lintText fmt refText curText = .ok rs := by
+  obtain ⟨ck, hck⟩ := covered_checker hf
+  exact Pipe.lintText_ok fmt ck hck refText curText (parse_never_stuck fmt)
+    (fun e hw hj => Pipe.lint_checker_covered fmt ck hck e hw hj)
+
+/-! ### the tie of `compareTexts` to file names: the generated tables select this parser and this checker -/
+
+/-- `getParser("a.<ext>")` is the parser class of the format (first match in the generated constructor table) -/
+theorem fileName_parser :
+    Lint.getParserName (Pipe.fileName .ini) = some [73, 110, 105, 80, 97, 114, 115, 101, 114] ∧
+    Lint.getParserName (Pipe.fileName .inc) = some [68, 101, 102, 105, 110, 101, 115, 80, 97, 114, 115, 101, 114] ∧
+    Lint.getParserName (Pipe.fileName .po) = some [80, 111, 80, 97, 114, 115, 101, 114] ∧
+    Lint.getParserName (Pipe.fileName .properties) =
+      some [80, 114, 111, 112, 101, 114, 116, 105, 101, 115, 80, 97, 114, 115, 101, 114] := by
+  refine ⟨?_, ?_, ?_, ?_⟩ <;> decide +kernel
+
+/-- `getChecker`: `PropertiesChecker.pattern` matches `a.properties` only; none of the four special checkers' patterns
+    matches `a.ini`, `a.inc`, `a.po` (so `getChecker` falls through to the base `Checker`) -/
+theorem fileName_checker :
+    (Rx.matchAt (Pipe.fileName .properties).toArray Gen.Pat.PropertiesChecker_pattern 0).isSome = true ∧
+    ∀ f, f = P.Fmt.ini ∨ f = P.Fmt.inc ∨ f = P.Fmt.po →
+      (Rx.matchAt (Pipe.fileName f).toArray Gen.Pat.PropertiesChecker_pattern 0).isSome = false ∧
+      (Rx.matchAt (Pipe.fileName f).toArray Gen.Pat.DTDChecker_pattern 0).isSome = false ∧
+      (Rx.matchAt (Pipe.fileName f).toArray Gen.Pat.FluentChecker_pattern 0).isSome = false ∧
+      (Rx.matchAt (Pipe.fileName f).toArray Gen.Pat.AndroidChecker_pattern 0).isSome = false := by
+  refine ⟨by decide +kernel, ?_⟩
+  intro f hf
+  rcases hf with rfl | rfl | rfl <;> (refine ⟨?_, ?_, ?_, ?_⟩ <;> decide +kernel)
+
+/-! ### non-vacuity and negation witnesses
+
+`List.mergeSort` (inside `AR.addRemove`) is defined by well-founded recursion, which `decide` cannot unfold for more
+than one key; examples with several keys are therefore obtained by INSTANTIATING the theorems on a concrete pair of
+texts whose hypothesis `noClashTB` is decided, and the single-key examples are evaluated outright. -/
+
+/-- "a=1\nb=2\n" -/
+def exRef : Array Nat := #[97, 61, 49, 10, 98, 61, 50, 10]
+/-- "a=�\n??\nc=3\n": `a` shared and containing U+FFFD, junk `??\n`, `c` obsolete, `b` missing -/
+def exL10n : Array Nat := #[97, 61, 65533, 10, 63, 63, 10, 99, 61, 51, 10]
+
+/-- the hypothesis holds on a text pair with junk + missing + obsolete + U+FFFD … -/
+theorem ex_noClash : Pipe.NoJunkClashT .ini exRef exL10n :=
+  Pipe.noClashTB_sound _ _ _ (by decide +kernel)
+
+/-- … so the comparison of that pair returns a report, with and without merge staging, -/
+example : ∀ m, ∃ r, Pipe.compareTexts .ini exRef exL10n m = .ok r :=
+  fun m => compareTexts_never_raises_partial .ini (Or.inl rfl) _ _ m ex_noClash
+
+def okWith {α : Type} (p : α → Bool) : Except Pipe.PyErr α → Bool
+  | .ok a => p a
+  | .error _ => false
+
+/-- … the localized file parses to the entity `a` (with U+FFFD), one Junk and the entity `c`, and `a` is the last
+    entry of its key (the premise of `ufffd_warned_end_to_end_partial` is satisfiable) -/
+example : okWith (fun p => p.1.map (fun e => (e.junk, e.all.contains 0xFFFD)) == [(false, true), (true, false), (false, false)]
+    && (match Pipe.lookup p.1 (.str [97]) with | .ok e => e.all.contains 0xFFFD | .error _ => false))
+    (Pipe.parseFile .ini exL10n 0) = true := by decide +kernel
+
+/-- single shared key, evaluated outright: "a=1\n" against "a=�\n" gives exactly one detail, the encoding warning
+    `"� in: a at line 1, column 3 for a"`, and the counters errors 0, warnings 1, changed 1 (1 word) -/
+example : okWith (fun r => r.details.map (·.2) == [[(.warning, .data (.str
+      [65533, 32, 105, 110, 58, 32, 97, 32, 97, 116, 32, 108, 105, 110, 101, 32, 49, 44, 32, 99, 111, 108, 117, 109, 110, 32, 51, 32, 102, 111, 114, 32, 97]))]]
+    && r.summary.map (fun p => p.2.map (·.2)) == [[0, 1, 0, 0, 0, 0, 1, 1, 0, 0, 0]] && r.merge == .copyL10n)
+    (Pipe.compareTexts .ini #[97, 61, 49, 10] #[97, 61, 65533, 10] true) = true := by decide +kernel
+
+/-- properties, evaluated outright: "a=%S\n" against "a=%d\n" with merge staging: one printf error, the entity is skipped
+    and the reference entity appended (written file "\n\na=%S\n" after cutting "a=%d") -/
+example : okWith (fun r => r.details.map (fun l => l.2.map (·.1)) == [[.error]]
+    && (match r.merge with | .written _ => true | _ => false))
+    (Pipe.compareTexts .properties #[97, 61, 37, 83, 10] #[97, 61, 37, 100, 10] true) = true := by decide +kernel
+
+/-- lint of the junk/obsolete/U+FFFD text against the reference: three results (changed `a`… ) never an exception -/
+example : okWith (fun rs => rs.length == 3) (Pipe.lintText .ini (some exRef) exL10n) = true := by decide +kernel
+
+deriving instance DecidableEq for Except
+
+/-- **negation witness for `NoJunkClashT`**: reference "abc" (one Junk, key `_junk_1_0-3`) against the localization
+    "_junk_1_0-3=x": the model raises AttributeError (`Junk` has no `equals`), as the real code does. -/
+theorem junk_key_clash_raises :
+    Pipe.compareTexts .ini #[97, 98, 99] #[95, 106, 117, 110, 107, 95, 49, 95, 48, 45, 51, 61, 120] false
+      = .error .attributeError := by decide +kernel
+
+/-- … and the decidable condition rejects that pair -/
+example : Pipe.noClashTB .ini #[97, 98, 99] #[95, 106, 117, 110, 107, 95, 49, 95, 48, 45, 51, 61, 120] = false := by
+  decide +kernel
+
+/-- the linter does not raise on that pair -/
+example : okWith (fun _ => true)
+    (Pipe.lintText .ini (some #[97, 98, 99]) #[95, 106, 117, 110, 107, 95, 49, 95, 48, 45, 51, 61, 120]) = true := by
+  decide +kernel
 
 end C05
